@@ -200,6 +200,9 @@ pub enum Choice {
     /// deliver / drop the first message in the network matching (from, to, ty); idx/term = -1 match anything
     DeliverMatch { from: u64, to: u64, ty: String, idx: i64, keep: bool },
     DropMatch { from: u64, to: u64, ty: String, idx: i64 },
+    /// deliver / drop the message identified by the key TLC prints in schedules
+    DeliverSpec { m: MsgKey, keep: bool },
+    DropSpec { m: MsgKey },
     Propose { n: u64, p: String },
     ProposeBatch { n: u64, ents: Vec<EntryV> },
     ProposeConf { n: u64, v1: bool, tr: String, ch: Vec<ChV> },
@@ -225,6 +228,39 @@ pub enum Choice {
     SetKnob { n: u64, name: String, val: i64 },
     /// set the randomized election timeout that node n will draw at its next reset
     SetTimeout { n: u64, rt: u64 },
+}
+
+#[derive(Serialize, Deserialize, Clone, Debug, PartialEq)]
+pub struct MsgKey {
+    pub from: u64,
+    pub to: u64,
+    pub ty: String,
+    pub term: u64,
+    pub idx: u64,
+    pub lt: u64,
+    pub commit: u64,
+    pub rej: bool,
+    pub hint: u64,
+    pub ne: usize,
+    pub ctx: String,
+    pub si: u64,
+}
+
+impl MsgKey {
+    pub fn matches(&self, m: &MsgV) -> bool {
+        self.from == m.from
+            && self.to == m.to
+            && self.ty == m.ty
+            && self.term == m.term
+            && self.idx == m.idx
+            && self.lt == m.lt
+            && self.commit == m.commit
+            && self.rej == m.rej
+            && self.hint == m.hint
+            && self.ne == m.ents.len()
+            && self.ctx == m.ctx
+            && self.si == m.snap.i
+    }
 }
 
 #[derive(Serialize, Deserialize, Clone, Debug)]
@@ -599,6 +635,14 @@ impl Cluster {
             Choice::DeliverMatch { from, to, ty, idx, keep } => {
                 let m = self.find_match(from, to, &ty, idx)?;
                 self.deliver(&m, keep)
+            }
+            Choice::DeliverSpec { m, keep } => {
+                let mv = self.net.iter().map(msg_view).find(|x| m.matches(x))?;
+                self.deliver(&mv, keep)
+            }
+            Choice::DropSpec { m } => {
+                let mv = self.net.iter().map(msg_view).find(|x| m.matches(x))?;
+                self.apply_choice(&Choice::Drop { m: mv })
             }
             Choice::DropMatch { from, to, ty, idx } => {
                 let m = self.find_match(from, to, &ty, idx)?;
